@@ -3,9 +3,12 @@
 import json, os, sys
 sys.path.insert(0, os.path.dirname(os.path.abspath(__file__)))
 import props, manifest_meta as mm
+mm.META.update(props.META)
 
 checks = []
 for pid in sorted(props.SPECS):
+    if pid not in mm.META:
+        continue  # spec under construction: not claimed until its META entry exists
     meta = mm.META[pid]
     checks.append({
         "property_id": pid,
@@ -18,7 +21,7 @@ for pid in sorted(props.SPECS):
         "level_note": meta["note"],
         "technique": meta["technique"],
     })
-na = [{"property_id": p, "reason": r} for p, r in sorted(mm.NOT_APPLICABLE.items()) if p not in props.SPECS]
+na = [{"property_id": p, "reason": r} for p, r in sorted(mm.NOT_APPLICABLE.items()) if not (p in props.SPECS and p in mm.META)]
 m = {
     "version": 1,
     "setup_cmd": "/usr/bin/python3 bin/setup.py",
